@@ -518,7 +518,12 @@ class CustomSD(BaseCorrelations):
                                       - 1j * tau * w))) \
                         / (1 - np.exp(-w / self.temperature))
                 else:
-                    inte = self._spectral_density(w) * np.exp(-1j * w * tau)
+                    # exp(-w/T) is negligible, but for imaginary (matsubara)
+                    # times exp(-(w/T - 1j*tau*w)) is not
+                    inte = self._spectral_density(w) \
+                        * (np.exp(-1j * w * tau)
+                           + np.exp(-(1 / self.temperature * w \
+                                      - 1j * tau * w)))
                 return inte
 
         integral = _complex_integral(integrand,
@@ -596,8 +601,12 @@ class CustomSD(BaseCorrelations):
                             - np.exp(- w / self.temperature) - 1) \
                         / (1 - np.exp(-w / self.temperature)) + 1j*tau * w)
                 else:
+                    # exp(-w/T) is negligible, but for imaginary (matsubara)
+                    # times exp(-(w/T - 1j*tau*w)) is not
                     inte = self._spectral_density(w) / w ** 2 \
-                        * (np.exp(-1j * w * tau) - 1 + 1j * w * tau)
+                        * (np.exp(-1j * w * tau) \
+                           + np.exp(-(w / self.temperature - 1j*tau * w)) \
+                           - 1 + 1j * w * tau)
                 return inte
 
         integral = _complex_integral(integrand,
